@@ -216,6 +216,13 @@ func (ut UnitType) findByAlias(alias string) *Unit {
 // sniffUnit simpifies the input alias and returns the unit associated with the
 // specified alias. It returns nil if the unit with such alias is not found.
 func (ut UnitType) sniffUnit(unit string) *Unit {
+	// A canonical name is a spelling of its unit too: the unit chosen by
+	// autoScale (e.g. "n*GCU") is fed back as the target unit of a report.
+	for i := range ut.Units {
+		if ut.Units[i].CanonicalName == unit {
+			return &ut.Units[i]
+		}
+	}
 	unit = strings.ToLower(unit)
 	if u := ut.findByAlias(unit); u != nil {
 		return u
